@@ -64,7 +64,11 @@ def knownGaps : List (String × String × String) := [
   -- of a numeric operand, only OverflowError handled; ValueError needs a non-numeric x: unreachable
   ("double", "float()", "ValueError"),
   -- math:exp after the `fix:` that returns INF on overflow: math.exp raises ValueError for no float
-  ("evaluate__exp", "math()", "ValueError")]
+  ("evaluate__exp", "math()", "ValueError"),
+  -- fn:codepoints-to-string: int(UntypedAtomic) goes through int(str): ValueError only (handled)
+  ("evaluate__codepoints_to_string", "int()", "OverflowError"),
+  -- idiv on doubles: float(op) of an operand already known to be numeric: no ValueError
+  ("evaluate__idiv_operator", "float()", "ValueError")]
 
 /-- one generated row: file, function, operation kinds in the `try` body, handler classes -/
 abbrev TryRow := String × String × List String × List String
@@ -120,6 +124,7 @@ loop breaks `EPV.C03.while_loops_baseline`.  `proved` = a theorem of this proper
 its model; `argued` = argument by reading, checked by the hang watchdog of the exploration only. -/
 def whileBaseline : List (String × String × String × String) := [
   ("decoder.py", "_iter_values", "depth <= 15 and type_ is not None", "argued: depth counter bounded by 15"),
+  ("etree.py", "etree_iter_text", "True", "argued: iterator stack over a finite element tree (added by a C02 fix)"),
   ("etree.py", "etree_tostring", "lines and (not lines[-1].strip())", "argued: pops one line per iteration"),
   ("regex/patterns.py", "parse_character_class", "True", "argued: pos advances by >= 1 per iteration, breaks on ']' or raises at end of pattern"),
   ("regex/patterns.py", "translate_pattern", "pos < pattern_len", "argued: pos strictly increases"),
